@@ -67,7 +67,7 @@ PROPS = {
         "engine": "dbsim", "level": "exploration", "budget": {"quick": 28, "thorough": 600},
         "title": "Once reopened, contents change only through new writes",
         "technique": "deterministic simulation: every reopened crash image is dumped, subjected to a seeded maintenance schedule (flush, every compaction kind, value-log GC, WAL watchdog) and a second reopen; the dump must not change",
-        "rule": "as C10 for the crash images; after reopening an image its all-version dump is taken, a generated maintenance schedule runs with no client writes, and the dump (and the dump after one more clean reopen) must be identical; non-trivial as C09",
+        "rule": "as C10 for the crash images; after reopening an image its all-version dump is taken, a generated maintenance schedule runs with no client writes, and the dump (and the dump after one more clean reopen; three reopen cycles in the value-log variant: 2-4 buckets of 256-512 byte segments with GC-heavy maintenance) must be identical; non-trivial as C09",
         "level_text": "Seeded search over crash images x maintenance schedules; oracle = equality of dumps of the same database.",
         "note": "Trusted: as C09.",
         "design_ref": "7/C11", "assumptions": E1_ASSUME + ["a crash image is a copy of the working directory taken while the instance is alive, at a state-changing file-system call (optionally after only a page-aligned prefix of a write arrived); LOCK file skipped", "the set of acknowledged batches at the image instant is exact because the single client is synchronous"],
@@ -85,7 +85,7 @@ PROPS = {
         "engine": "dbsim", "level": "exploration", "budget": {"quick": 25, "thorough": 600},
         "title": "Iterators return exactly the live snapshot in order, honouring options",
         "technique": "deterministic simulation: multi-version state built by committed transactions (deletes, TTLs on the fake clock, pending writes) or plain writes, maintenance placement, then Txn/DB iterators under generated option sets and seek targets compared with a reference scan",
-        "rule": "case = seeded state-building steps + maintenance + iterator probes (forward/reverse x lower/upper bound x prefix x key-only x all-versions x since-ts x pending writes, Rewind and two Seek targets each); the full output of every probe is compared with the model's scan (keys, values, versions, order) and, in latest-version mode, every yielded value with Txn.Get; distinct = distinct trace hash; non-trivial = at least one probe evaluated after a rotation or flush",
+        "rule": "case = seeded state-building steps + maintenance + iterator probes (forward/reverse x lower/upper bound x prefix x key-only x all-versions x since-ts x pending writes, Rewind, two generated Seek targets and the smallest and largest stored key each; one case in three starts with a layout prefix that pushes every key into the last level's sorted run); the full output of every probe is compared with the model's scan (keys, values, versions, order) and, in latest-version mode, every yielded value with Txn.Get; distinct = distinct trace hash; non-trivial = at least one probe evaluated after a rotation or flush",
         "level_text": "Seeded search over snapshot contents x storage layout x option sets with an executable reference scan as oracle.",
         "note": "Trusted: the reference scan (written from the property statement), commit versions learned from ReadTs of a fresh transaction (single client).",
         "design_ref": "7/C06", "assumptions": E1_ASSUME,
